@@ -1,6 +1,7 @@
 package main
 
 import (
+	"regexp"
 	"strings"
 
 	"golang.org/x/tools/go/ssa"
@@ -10,8 +11,17 @@ func init() { register("C10", checkC10) }
 
 // Named exceptions (one construct each, with the reason).
 var linearExceptions = map[string]string{
-	"hclwrite.parseBlockLabels:phi[beforeAll]": "replaced only in the first iteration (i == 0), when it still holds the zero value it was initialised with",
-	"hclwrite.parseTraversal:phi[stepAfter]":   "after the last step the remainder is empty: hcl.Traversal.SourceRange() ends at the last step's range, so `from` (the tokens of that range) is exhausted by the steps",
+	// keyed by function and kind of value (the loop-carried phi), not by the local's name
+	"hclwrite.parseBlockLabels:phi[*]": "the loop-carried `before` of the label loop is replaced only in the first iteration (i == 0), when it still holds the zero value it was initialised with",
+	"hclwrite.parseTraversal:phi[*]":   "the loop-carried remainder of the step loop: after the last step it is empty, because hcl.Traversal.SourceRange() ends at the last step's range, so the tokens of that range are exhausted by the steps",
+}
+
+var phiKeyRE = regexp.MustCompile(`:phi\[[^\]]*\]`)
+
+// linearException looks an obligation key up with the names of locals wildcarded.
+func linearException(k string) (string, bool) {
+	why, ok := linearExceptions[phiKeyRE.ReplaceAllString(k, ":phi[*]")]
+	return why, ok
 }
 
 var orderExceptions = map[string]string{
@@ -61,7 +71,7 @@ func checkC10(c *Ctx) {
 		}
 		for _, k := range checked {
 			nVals++
-			if why, ok := linearExceptions[k]; ok && len(bad[k]) > 0 {
+			if why, ok := linearException(k); ok && len(bad[k]) > 0 {
 				c.OK("linear", k, fn.Pos(), "named exception: "+why)
 				c.Assumption("linear exception " + k + ": " + why)
 				delete(bad, k)
